@@ -263,6 +263,9 @@ class SymList(SymIterable):
     def length(self):
         return sym.mkint(z3.Length(self.t))
 
+    def zlen(self):
+        return z3.Length(self.t)
+
     def elem(self, i):
         idx = (z3.Length(self.t) - 1 - zint(i)) if self.rev else zint(i)
         e = self.t[idx]
@@ -328,6 +331,73 @@ class SymList(SymIterable):
         raise Inapplicable("len() of a symbolic list outside the interpreter")
 
 
+class SymRecordList(SymIterable):
+    """a list of fixed-shape records (tuples) of unknown but fixed length n: one z3 array per
+    component, index stores allowed (the spine is never resized).  The contract supplies how a record
+    is read from / written to the arrays:  read(arrays, k) -> Python value,  write(arrays, k, value)
+    -> new arrays.  Iteration reads the CURRENT arrays (a list mutated while iterated)."""
+
+    def __init__(self, n, arrays, read, write, sorts):
+        self.n, self.arrays, self.read, self.write, self.sorts = n, dict(arrays), read, write, sorts
+
+    def zlen(self):
+        return self.n
+
+    def length(self):
+        return sym.mkint(self.n)
+
+    def elem(self, i):
+        return self.read(self.arrays, zint(i))
+
+    def _index(self, k):
+        p = cur()
+        idx = zint(k)
+        if isinstance(k, int) and k < 0:
+            idx = self.n + k
+        elif not isinstance(k, int):
+            # Python's negative indices: decide the sign first
+            if not p.entails(idx >= 0):
+                if p.branch(idx < 0):
+                    idx = self.n + idx
+        if not p.branch(z3.And(idx >= 0, idx < self.n)):
+            raise IndexError("list index out of range")
+        return idx
+
+    def sym_getitem(self, interp, k):
+        if isinstance(k, slice):
+            raise Inapplicable("slice of a symbolic record list")
+        return self.read(self.arrays, self._index(k))
+
+    def sym_setitem(self, interp, k, v):
+        if isinstance(k, slice):
+            raise Inapplicable("slice store on a symbolic record list")
+        self.arrays = self.write(self.arrays, self._index(k), v)
+
+    def havoc(self, p, name="rec"):
+        """all components unknown (in place: iteration in progress sees the new contents)"""
+        self.arrays = {c: z3.Const(p._name(f"{name}.{c}"), z3.ArraySort(INT, self.sorts[c])) for c in self.arrays}
+        return self
+
+    def sym_getattr(self, interp, name):
+        raise Inapplicable(f"list.{name} on a symbolic record list (fixed spine)")
+
+    def __bool__(self):
+        return cur().branch(self.n > 0)
+
+
+class SymEnumerate(SymIterable):
+    """enumerate(<symbolic list>)"""
+
+    def __init__(self, inner, start=0):
+        self.inner, self.start = inner, start
+
+    def zlen(self):
+        return self.inner.zlen()
+
+    def elem(self, i):
+        return (sym.mkint(zint(i) + self.start) if self.start else i, self.inner.elem(i))
+
+
 def install(interp):
     """builtin overrides aware of SymRef / SymList"""
     ov = interp.overrides
@@ -335,7 +405,15 @@ def install(interp):
     old_len, old_isinstance, old_bool = ov[builtins.len], ov[builtins.isinstance], ov[builtins.bool]
 
     def b_len(x):
-        return x.length() if isinstance(x, SymList) else old_len(x)
+        return x.length() if isinstance(x, (SymList, SymRecordList)) else old_len(x)
+
+    def b_enumerate(x, start=0):
+        if isinstance(x, (SymList, SymRecordList)):
+            if isinstance(x, SymList) and x.rev:
+                raise Inapplicable("enumerate(reversed(<symbolic list>))")
+            return SymEnumerate(x, start)
+        return enumerate(x, start)
+    ov[builtins.enumerate] = b_enumerate
 
     def b_isinstance(x, t):
         if isinstance(x, SymRef):
@@ -360,7 +438,7 @@ def install(interp):
     old_truth = interp.truth
 
     def truth(v):
-        if isinstance(v, SymList):
+        if isinstance(v, (SymList, SymRecordList)):
             return bool(v)
         if isinstance(v, SymRef):
             return True
@@ -440,6 +518,22 @@ def assigned_names(body):
     return names
 
 
+def mutated_names(body):
+    """names whose object the body mutates in place: subscript stores / deletes and calls of mutating
+    methods on a plain name"""
+    out = set()
+    from .frames import MUTATORS
+    for node in ast.walk(ast.Module(body=body, type_ignores=[])):
+        if isinstance(node, ast.Subscript) and isinstance(node.ctx, (ast.Store, ast.Del)) and isinstance(node.value, ast.Name):
+            out.add(node.value.id)
+        if isinstance(node, ast.Call) and isinstance(node.func, ast.Attribute) and node.func.attr in MUTATORS \
+                and isinstance(node.func.value, ast.Name):
+            out.add(node.func.value.id)
+        if isinstance(node, ast.AugAssign) and isinstance(node.target, ast.Subscript) and isinstance(node.target.value, ast.Name):
+            out.add(node.target.value.id)
+    return out
+
+
 def stored_fields(body):
     out = set()
     for node in ast.walk(ast.Module(body=body, type_ignores=[])):
@@ -483,8 +577,12 @@ def loop_rule(name, inv, locals_=None, fields=(), elem_cls=None, reverse=False):
         p = cur()
         if isinstance(itv, (list, tuple)) and not isinstance(itv, SymList):
             return NotImplemented          # concrete spine: plain unrolling
-        if not isinstance(itv, SymList):
+        if not hasattr(itv, "zlen"):
             raise Inapplicable(f"{name}: loop over {type(itv).__name__}")
+        # containers the body mutates through a name (x[i] = .., x.append(..)) must be declared too
+        for nm in mutated_names(node.body):
+            if nm not in locals_ and nm not in {n.id for n in ast.walk(node.target) if isinstance(n, ast.Name)}:
+                raise Inapplicable(f"{name}: loop body mutates {nm!r}, not covered by the loop contract")
         # everything the body writes must be declared
         targets = assigned_names([ast.Expr(value=ast.Constant(value=0))] + node.body)
         tnames = {n.id for n in ast.walk(node.target) if isinstance(n, ast.Name)}
@@ -495,7 +593,7 @@ def loop_rule(name, inv, locals_=None, fields=(), elem_cls=None, reverse=False):
         if sf:
             raise Inapplicable(f"{name}: loop body stores to fields {sorted(sf)}, not covered by the loop contract")
         seq = itv
-        n = z3.Length(seq.t)
+        n = seq.zlen()
         entry_locals = dict(frame.locals)
         entry_heap = dict(p.ghost.get("heap", {}))
         S0 = LoopState(z3.IntVal(0), n, seq, frame, p, entry_locals, entry_heap)
